@@ -7,11 +7,12 @@ import json
 import bindgen as G
 import bindlib as B
 
-WIDE_FEATURES = {"attr", "elem", "child", "list", "text", "ns", "nillable", "tokens", "wrapper", "sequence", "attributes", "fixed", "inherit", "wildcard"}
-FEAT = {"nillable": True, "tokens": True, "wrapper": True, "sequence": True, "fixed": True, "anyAttrs": True, "inherit": True, "wildcard": True}
+WIDE_FEATURES = {"attr", "elem", "child", "list", "text", "ns", "nillable", "tokens", "wrapper", "sequence", "attributes", "fixed", "inherit", "wildcard", "punion"}
+FEAT = {"nillable": True, "tokens": True, "wrapper": True, "sequence": True, "fixed": True, "anyAttrs": True, "inherit": True, "wildcard": True, "union": True}
 XSI = "http://www.w3.org/2001/XMLSchema-instance"
 
 TYPING = ("out-of-claim: None inside a list that is not nillable", "out-of-claim: None where the default is not None")
+TOKEN_NONE = "out-of-claim: None among the tokens of a token list (typing)"
 TOKEN = "out-of-claim: empty token or token with white space (xs:list)"
 NIL_CLASS = "out-of-claim: None under a nillable var of a nillable class (same document as an empty object)"
 EMPTY_TEXT = "out-of-claim: empty text vs None"
@@ -25,7 +26,6 @@ WILD_ITEM = "out-of-claim: item of a list wildcard that is not an AnyElement wit
 WILD_NAME = "out-of-claim: generic element named like a declared element or wrapper of the class (it is that field's element)"
 WILD_NS = "out-of-claim: generic element outside the namespaces of the wildcard (typing)"
 WILD_XSI = "out-of-claim: xsi:type / xsi:nil among the attributes of a generic element (control attributes)"
-WILD_SINGLE = "out-of-claim: a wildcard field that is not a list (not in the fragments)"
 GENERIC_FORM = ("out-of-claim: generic element not in the form the parser builds (text None, a tail, white-space text next to "
                 "children): C11")
 GENERIC_ATTR = "out-of-claim: attribute value of a generic element that looks like prefix:rest or is the Clark name of a datatype (C11)"
@@ -63,7 +63,43 @@ def _is_list(t):
     return isinstance(t, dict) and "list" in t
 
 
-def regions(desc, value, ctx=None):
+UNION_NOT_ELEMENT = "out-of-claim: union-typed attribute or text var (not in the fragments)"
+UNION_EARLIER = "C01-union-value-reads-as-earlier-type"
+
+
+def union_reads_back(types, y):
+    """`converter.deserialize(serialize(y), types)`, re-stated: the first member type (in the order of
+    `var.types`) that accepts the text"""
+    if "str" in y:
+        text = y["str"]
+    elif "bool" in y:
+        text = "true" if y["bool"] else "false"
+    else:
+        text = str(y["int"])
+    if text == "":
+        return {"str": ""}   # the empty element has no text: `""` whatever the types
+    for t in types:
+        t = t["prim"] if isinstance(t, dict) else t
+        if t == "str":
+            return {"str": text}
+        if t == "int":
+            try:
+                return {"int": int(text)}
+            except ValueError:
+                continue
+        if t == "bool":
+            v = text.strip()
+            if v in ("true", "1"):
+                return {"bool": True}
+            if v in ("false", "0"):
+                return {"bool": False}
+    return None
+
+
+SUBCLASS_OFF = "out-of-claim: instance of a proper subclass (fragments without inheritance)"
+
+
+def regions(desc, value, ctx=None, inherit=True):
     """known findings / out-of-claim regions an instance of a WIDE_FEATURES universe falls under
     (`ctx`: the exported metadata, needed for the qualified names an `Attributes` map may hold)"""
     by = {c["name"]: c for c in desc["classes"]}
@@ -144,15 +180,24 @@ def regions(desc, value, ctx=None):
                 generic_form(c["any"])
 
     def wild_check(meta, f, x):
-        """`wildItemOK` of Bind/FN.lean: the items of the list wildcard of a class"""
-        if not (isinstance(x, dict) and "list" in x) or meta is None:
-            out.append(WILD_SINGLE)  # (the universe is excluded as well)
-            return
-        wv = next((w for w in meta["wildcards"] if w["name"] == f["name"]), None)
+        """`wildItemOK` of Bind/FN.lean: the items of the wildcard of a class (a list, or one generic
+        element / None)"""
+        wv = next((w for w in (meta or {"wildcards": []})["wildcards"] if w["name"] == f["name"]), None)
         if wv is None:
             return
+        if wv["list_element"]:
+            if not (isinstance(x, dict) and "list" in x):
+                out.append(WILD_ITEM)
+                return
+            items = x["list"]
+        elif x is None:
+            if f.get("default", {}).get("value", "<required>") is not None:
+                out.append(TYPING[1])
+            return
+        else:
+            items = [x]
         declared = {q for q, _ in meta["elements"]} | {k for k, _ in meta["wrappers"]}
-        for y in x["list"]:
+        for y in items:
             if not (isinstance(y, dict) and "any" in y and y["any"]["qname"]):
                 out.append(WILD_ITEM)
                 continue
@@ -208,6 +253,8 @@ def regions(desc, value, ctx=None):
 
     def tok_check(items):
         for y in items:
+            if y is None:
+                out.append(TOKEN_NONE)
             if isinstance(y, dict) and "str" in y and (y["str"] == "" or any(ch.isspace() for ch in y["str"])):
                 out.append(TOKEN)
 
@@ -227,7 +274,14 @@ def regions(desc, value, ctx=None):
             base = G._base(t)
             is_cls = isinstance(base, dict) and "cls" in base
 
+            is_union = isinstance(base, dict) and "union" in base and all(isinstance(m_, str) for m_ in base["union"])
+
             def item(y, in_list):
+                if is_union and isinstance(y, dict) and any(k in y for k in ("str", "int", "bool")):
+                    var = next(w for _, vs in meta["elements"] for w in vs if w["name"] == f["name"])
+                    if union_reads_back(var["types"], y) != y:
+                        out.append(UNION_EARLIER)
+                    return
                 if y is None:
                     if in_list and not nillable:
                         out.append(TYPING[0])
@@ -237,6 +291,8 @@ def regions(desc, value, ctx=None):
                         out.append(NIL_CLASS)
                 elif isinstance(y, dict) and "obj" in y:
                     sub = is_cls and y["obj"] != base["cls"]
+                    if sub and not inherit:
+                        out.append(SUBCLASS_OFF)
                     if sub:
                         var = next(w for _, vs in meta["elements"] for w in vs if w["name"] == f["name"])
                         derived(base["cls"], y["obj"], var, child_pns)
@@ -246,6 +302,9 @@ def regions(desc, value, ctx=None):
                     if not in_list and dflt not in (None, "", "<required>"):
                         out.append("C01-empty-str-element-default")
 
+            if typ in ("Attribute", "Text") and isinstance(base, dict) and "union" in base:
+                out.append(UNION_NOT_ELEMENT)
+                continue
             if f.get("init") is False and x != G_val(dflt):
                 out.append(FIXED)
             if typ == "Wildcard":
@@ -267,7 +326,7 @@ def regions(desc, value, ctx=None):
                 if tokens:
                     tok_check(x["list"])  # (an empty token text of an xsi:nil element stays []: repair c01g-08)
                 elif x is None:
-                    if not (nl or cn) and dflt is not None:
+                    if not cn and dflt is not None:  # (only a nillable class: repair c01g-03)
                         out.append(TYPING[1])
                 elif "str" in x and x["str"] == "" and dflt != "":
                     out.append(EMPTY_TEXT)
@@ -314,22 +373,40 @@ def _seq_ok(vs):
     return True
 
 
-def ctx_expected(ctx, ns_agree):
-    """`ctxOK FEAT` on exported universes of WIDE_FEATURES: everything but a class with a text var and
-    child elements, and token-list or wrapped vars inside a sequence group (`seqOK`)"""
+def ctx_expected(ctx, ns_agree, feat=None):
+    """`ctxOK feat` (default: all features, `FEAT`) on exported universes of WIDE_FEATURES: every
+    feature the universe uses is switched on; no class with a text var and child elements; no
+    token-list or wrapped var inside a sequence group (`seqOK`); the wildcard (list or single) is not mixed and is found under its own name"""
+    feat = FEAT if feat is None else feat
+    on = lambda k: bool(feat.get(k))  # noqa: E731
     for ci in ctx["classes"]:
         for _, m in ci["metas"]:
             vs = [v for _, vv in m["elements"] for v in vv]
+            if (m["nillable"] and not on("nillable")) or (m["wildcards"] and not on("wildcard")) \
+                    or (m["any_attributes"] and not on("anyAttrs")):
+                return False
+            for v in vs + [w for _, w in m["attributes"]] + ([m["text"]] if m["text"] else []):
+                if (not v["init"] and not on("fixed")) or (v["sequence"] is not None and not on("sequence")) \
+                        or (v["nillable"] and not on("nillable")) or (v["tokens"] and not on("tokens")) \
+                        or (v["wrapper_qname"] and not on("wrapper")):
+                    return False
+            if any(len(w["types"]) > 1 for _, w in m["attributes"]) or (m["text"] and len(m["text"]["types"]) > 1):
+                return False  # a union-typed attribute or text var: not in the fragments
+            # a union of primitives: an element var, Optional with default None or a list
+            for v in vs:
+                if len(v["types"]) > 1 and not (on("union") and v["init"] and not v["tokens"] and not v["nillable"]
+                                                and v["default"] == ("list" if v["list_element"] else None)):
+                    return False
             if m["text"] and (vs or m["wildcards"]):
                 return False  # a subclass adds child elements to a class with a text var (not in the fragments)
             if not _seq_ok(vs):
                 return False
-            # `wildVarOK`: at most one wildcard, a plain list that `find_children` finds under its own name
+            # `wildVarOK`: at most one wildcard, not mixed, that `find_children` finds under its own name
             if len(m["wildcards"]) > 1:
                 return False
             for w in m["wildcards"]:
                 names = {q for q, _ in m["elements"]} | {k for k, _ in m["wrappers"]}
-                if not w["list_element"] or w["mixed"] or w["qname"] in names or not _admits(w["namespaces"], w["qname"]):
+                if w["mixed"] or w["qname"] in names or not _admits(w["namespaces"], w["qname"]):
                     return False
     return True  # (no condition on the namespaces any more: repair c01g-01)
 
@@ -400,6 +477,23 @@ def spoil(rng, value):
                 a["tail"] = rng.choice(["tl", " "])
         if rng.random() < 0.1:
             w["list"].append(rng.choice([None, {"str": "loose"}]))
+    # `None` among the items of a list / in place of a primitive (typing regions)
+    def nones(x):
+        if isinstance(x, dict):
+            if "obj" in x:
+                for kv in x["fields"]:
+                    if isinstance(kv[1], dict) and any(k in kv[1] for k in ("str", "int", "bool")) and rng.random() < 0.04:
+                        kv[1] = None
+                    else:
+                        nones(kv[1])
+            elif "list" in x:
+                if x["list"] and all(isinstance(y, dict) and any(k in y for k in ("str", "int", "bool")) for y in x["list"]) \
+                        and rng.random() < 0.1:
+                    x["list"].insert(rng.randrange(len(x["list"]) + 1), None)
+                for y in x["list"]:
+                    nones(y)
+
+    nones(v)
     for leaf in leaves:
         if rng.random() < 0.25:
             leaf["str"] = rng.choice(["", "", " ", "a b", "\tq"])
@@ -443,6 +537,38 @@ def normal_generic(value):
 
     walk(v)
     return v
+
+
+# the feature sets of the theorems bind_generate_F2 … F8 (Props/C01Wide.lean)
+_ORDER = ["nillable", "tokens", "wrapper", "sequence", "fixed", "anyAttrs", "inherit", "wildcard", "union"]
+FRAGMENTS = {
+    "F2": {"nillable": True},
+    "F3": {"nillable": True, "tokens": True},
+    "F4": {"nillable": True, "tokens": True, "wrapper": True},
+    "F5": {"nillable": True, "tokens": True, "wrapper": True, "sequence": True},
+    "F6": {"nillable": True, "tokens": True, "wrapper": True, "sequence": True, "fixed": True, "anyAttrs": True},
+    "F7": {"nillable": True, "tokens": True, "wrapper": True, "sequence": True, "fixed": True, "anyAttrs": True, "inherit": True},
+    "F8": {k: True for k in FEAT if k != "union"},
+    "F9": dict(FEAT),
+}
+
+
+def pick_feat(rng):
+    """a fragment of the theorems, the empty feature set, or any subset (`bind_generate_FN`)"""
+    r = rng.random()
+    if r < 0.6:
+        name = rng.choice(sorted(FRAGMENTS))
+        return name, dict(FRAGMENTS[name])
+    if r < 0.7:
+        return "F1'", {}
+    return "FN", {k: True for k in _ORDER if rng.random() < 0.6}
+
+
+def features_for(rng, feat):
+    """generator features that mostly stay inside `feat` (and sometimes do not)"""
+    need = {"nillable": "nillable", "tokens": "tokens", "wrapper": "wrapper", "sequence": "sequence", "attributes": "anyAttrs",
+            "fixed": "fixed", "inherit": "inherit", "wildcard": "wildcard", "punion": "union"}
+    return {f for f in WIDE_FEATURES if f not in need or feat.get(need[f]) or rng.random() < 0.06}
 
 
 CORPUS = []
@@ -598,9 +724,24 @@ WILD_OTHER = _case(
         _f("w", {"list": "object"}, LIST, type="Wildcard", namespace="##other"),
         _f("a", {"opt": "str"}, NONE, type="Element")]}]},
     _o("Root", w={"list": [_any("{urn:g}p", "t"), _any("q", "")]}, a={"str": "x"}))
+WILD_SINGLE_NONE = _case(
+    {"classes": [{"name": "Root", "fields": [_f("w", {"opt": "object"}, NONE, type="Wildcard", namespace="##any")]}]},
+    _o("Root", w=None))
 WILD_SINGLE_CASE = _case(
     {"classes": [{"name": "Root", "fields": [_f("w", {"opt": "object"}, NONE, type="Wildcard", namespace="##any")]}]},
     _o("Root", w=_any("g", "t")))
+
+
+# unions of primitives
+_UNION_ROOT = {"classes": [{"name": "Root", "fields": [
+    _f("a", {"opt": {"union": ["int", "str"]}}, NONE, type="Element"),
+    _f("b", {"list": {"union": ["bool", "str"]}}, LIST, type="Element")]}]}
+UNION_OK = _case(_UNION_ROOT, _o("Root", a={"str": "abc"}, b={"list": [{"bool": True}, {"str": "x"}, {"str": ""}]}))
+UNION_INT = _case(_UNION_ROOT, _o("Root", a={"int": 5}, b={"list": []}))
+UNION_STR_AS_BOOL = _case(_UNION_ROOT, _o("Root", a=None, b={"list": [{"str": "true"}]}))
+UNION_STR_AS_INT = _case(_UNION_ROOT, _o("Root", a={"str": "5"}, b={"list": []}))
+UNION_ATTR = _case({"classes": [{"name": "Root", "fields": [_f("c", {"opt": {"union": ["bool", "int"]}}, NONE, type="Attribute")]}]},
+                   _o("Root", c={"int": 7}))
 
 
 def replay(desc, value, expect):
@@ -630,4 +771,5 @@ FINDINGS = {
     "C01-attributes-key-declared": lambda: replay(*MAP_KEY_DECLARED, lambda x: '["m", {"attrs": []}], ["k", {"int": 5}]' in x),
     "C01-attributes-value-prefix-rewritten": lambda: replay(*MAP_VALUE_PREFIX, lambda x: '"{urn:q}bar"' in x),
     "C01-wildcard-item-named-as-class": lambda: replay(*WILD_CLASS_NAME, lambda x: '["w", {"list": [{"obj": "Leaf"' in x),
+    "C01-union-value-reads-as-earlier-type": lambda: replay(*UNION_STR_AS_BOOL, lambda x: '["b", {"list": [{"bool": true}]}]' in x),
 }
